@@ -44,6 +44,9 @@ func (u unsupportedErr) Error() string { return u.msg }
 
 // VC holds the verification condition of one function under contract.
 type VC struct {
+	prefixFull, prefixLight string // cached renderings of the hypotheses (shared by all obligations of the VC)
+	prefixN, prefixLightN, prefixFullN int
+	lineInfo                []focusLine
 	retryOnly bool // discharge only the obligations not yet decided (second pass without competing functions)
 	hasStack bool // some local was marked stackobj: havoc versions keep the contents of those objects
 	pinned []string // root terms of parameters and call results: allocation facts are carried across havocs as ground facts
@@ -977,4 +980,13 @@ func (vc *VC) pinTerm(t string) {
 		}
 	}
 	vc.pinned = append(vc.pinned, t)
+}
+
+// focusLine: a line of the VC pre-analysed for the focused rendering.
+type focusLine struct {
+	text    string
+	quant   bool            // a quantified hypothesis guarded by a reachability constant
+	weak    string          // what replaces it when dropped
+	heaps   map[string]bool // heap names it mentions (without alloc and R)
+	onlyAll bool            // mentions allocation only
 }
